@@ -1,1 +1,125 @@
-import BigtreeModel.Basic
+import BigtreeModel.Store
+import BigtreeModel.StorePath
+import BigtreeProofs.Lemmas.StorePathD
+/-!
+# C03 — a Node's path identifies it: sibling names are unique, paths are exact
+
+Model: `BigtreeModel/Store.lean` with `Cfg.node = true` (the `Node` class: its pre-assign hooks run
+the user hook, then the duplicate-sibling-name check) and `BigtreeModel/StorePath.lean`
+(`path_name`, `depth`, `sep`, `find_full_path` as written; strings are `List Char`).
+String-level theorems assume a single-character separator that occurs in no name, and non-empty
+names (what `Node.__init__` enforces).
+-/
+
+namespace C03
+open Store
+
+def nodeCfg : Cfg := { assertions := true, node := true }
+def demoNames : Nat → Str := fun i => [['a'], ['b'], ['a'], ['a', 'b'], ['b']].getD i ['z']
+/-- a/b/a, a/ab and a single root b -/
+def demoOps : List Op :=
+  [.setChildren 0 [1, 3] .none, .setParent 2 (some 1) .none, .setParent 4 (some 0) .none, .setSep 2 ['.']]
+def demo : Store := run nodeCfg (init 5 demoNames ['/']) demoOps
+
+/-- every `Node` operation (any argument, any hook fault) keeps sibling names unique -/
+theorem sib_unique_step (c : Cfg) (hnode : c.node = true) (ha : c.assertions = true) (s : Store)
+    (hw : WF s) (hu : SibUnique s) (op : Op) : SibUnique (step c s op).1 :=
+  Store.sibUnique_step hw hu c hnode ha op
+
+/-- … hence in every reachable state of a `Node` history no two siblings share a name (and the state is a forest) -/
+theorem sib_unique_run (c : Cfg) (hnode : c.node = true) (ha : c.assertions = true) (n : Nat)
+    (names : Nat → Str) (sep : Str) (ops : List Op) :
+    SibUnique (run c (init n names sep) ops) ∧ WF (run c (init n names sep) ops) :=
+  ⟨Store.sibUnique_run (Store.wf_init n names sep) (Store.sibUnique_init n names sep) c hnode ha ops,
+   Store.wf_run (Store.wf_init n names sep) c ha ops⟩
+
+theorem demo_ok : SibUnique demo ∧ WF demo := sib_unique_run nodeCfg rfl rfl 5 demoNames ['/'] demoOps
+
+-- node 4 ("b") was refused under node 0, which already has the child 1 ("b"): the store is unchanged (C02)
+example : (step nodeCfg (run nodeCfg (init 5 demoNames ['/']) (demoOps.take 2)) (demoOps.getD 2 default)).2 = .rej := by
+  decide
+example : demo.parent 4 = none ∧ demo.children 0 = [1, 3] ∧ demo.children 1 = [2] := by decide
+
+/-- a refused duplicate leaves the store unchanged -/
+theorem dup_refused_unchanged (s : Store) (hw : WF s) (v p : Nat) (f : Fault)
+    (hd : dupParent s v (some p) = true) :
+    setParent nodeCfg s v (some p) f = (s, .rej) := by
+  have h2 : (setParent nodeCfg s v (some p) f).2 = .rej := by
+    cases ho : (setParent nodeCfg s v (some p) f).2 with
+    | rej => rfl
+    | ok => have := (setParent_ok_eq nodeCfg v (some p) f ho).2.2.2 rfl; rw [hd] at this; cases this
+  exact Prod.ext (Store.setParent_rej_id hw nodeCfg v (some p) f h2) h2
+
+/-- route names (root first) identify a node inside its tree -/
+theorem pathNames_injective (s : Store) (hw : WF s) (hu : SibUnique s) (u v : Nat)
+    (hst : SameTree s u v) (h : pathNames s u = pathNames s v) : u = v :=
+  Store.pathNames_injective hw hu u v hst h
+
+example : SameTree demo 2 3 ∧ pathNames demo 2 ≠ pathNames demo 3 := by decide
+
+/-- `sep.join(xs).split(sep) == xs` for a single-character separator occurring in no piece -/
+theorem split_join (d : Char) (xs : List Str) (hne : xs ≠ []) (hd : ∀ x ∈ xs, d ∉ x) :
+    split [d] (join [d] xs) = xs :=
+  Store.split_join d xs hne hd
+
+example : split ['/'] (join ['/'] [['a'], ['a', 'b'], ['b', '.']]) = [['a'], ['a', 'b'], ['b', '.']] := by decide
+
+/-- path names (the strings) are pairwise distinct inside a tree -/
+theorem path_name_injective (s : Store) (hw : WF s) (hu : SibUnique s) (d : Char) (u v : Nat)
+    (hst : SameTree s u v) (hsep : sep s v = [d]) (hn : ∀ x, s.name x ≠ [] ∧ d ∉ s.name x)
+    (h : pathName s u = pathName s v) : u = v :=
+  Store.pathName_injective hw hu d u v hst hsep hn h
+
+/-- a node's path name is the separator followed by the names on the route from the root joined by it -/
+theorem path_name_eq (s : Store) (v : Nat) :
+    pathName s v = sep s v ++ join (sep s v) (pathNames s v) :=
+  Store.pathName_eq s v
+
+example : pathName demo 2 = ['.', 'a', '.', 'b', '.', 'a'] ∧ pathName demo 4 = ['/', 'b'] := by decide
+
+/-- depth = length of the route from the root -/
+theorem depth_eq_length (s : Store) (v : Nat) : depth s v = (pathNames s v).length :=
+  Store.depth_eq_length s v
+
+/-- the separator of every node is the one stored on the root of its tree; a node and its parent agree;
+after `u.sep = x` exactly the nodes of `u`'s tree report `x`; a detached node reports its own field -/
+theorem sep_is_root_sep (s : Store) (hw : WF s) :
+    (∀ r v, Reach s r v → s.parent r = none → sep s v = s.sepOf r) ∧
+    (∀ v p, s.parent v = some p → sep s v = sep s p) ∧
+    (∀ u x v, sep (setSep s u x) v = if SameTree s v u then x else sep s v) ∧
+    (∀ c v f, (setParent c s v none f).2 = .ok → sep (setParent c s v none f).1 v = s.sepOf v) := by
+  refine ⟨fun r v hr h => Store.sep_of_root hw hr h, fun v p h => Store.sep_parent hw v p h,
+    fun u x v => Store.sep_setSep s u x v, ?_⟩
+  intro c v f ho
+  obtain ⟨he, _⟩ := setParent_ok_eq c v none f ho
+  have hw' : WF (reparent s v none) := by
+    have := Store.wf_reparent hw v none
+    by_cases hv : v < s.n
+    · exact this hv (by simp)
+    · -- an id out of range has no links at all
+      have hp : s.parent v = none := by
+        cases h : s.parent v with
+        | none => rfl
+        | some p => exact absurd (hw.range v p h).1 hv
+      have : reparent s v none = s := by
+        apply Store.ext' <;> try rfl
+        · funext x; simp only [reparent_parent]; by_cases hx : x = v <;> simp [hx, hp]
+        · funext x; simp [reparent_children, hp]
+      rw [this]; exact hw
+  rw [he]
+  exact Store.sep_of_root hw' (Reach.refl v) (by simp [reparent_parent])
+
+example : sep demo 0 = ['.'] ∧ sep demo 2 = ['.'] ∧ sep demo 4 = ['/'] := by decide
+
+/-- looking a node's path name up from any node of its tree returns that very node -/
+theorem find_full_path_path_name (s : Store) (hw : WF s) (hu : SibUnique s) (d : Char) (start v : Nat)
+    (hst : SameTree s start v) (hsep : sep s v = [d])
+    (hn : ∀ x ∈ pathNodes s v, s.name x ≠ [] ∧ d ∉ s.name x) :
+    findFullPath s start (pathName s v) = some (some v) :=
+  Store.findFullPath_pathName hw hu d start v hst hsep hn
+
+example : findFullPath demo 3 (pathName demo 2) = some (some 2) := by decide
+example : SameTree demo 3 2 ∧ sep demo 2 = ['.'] ∧ ∀ x ∈ pathNodes demo 2, demo.name x ≠ [] ∧ '.' ∉ demo.name x := by
+  decide
+
+end C03
